@@ -312,7 +312,7 @@ def check(run: Run) -> None:
         run.evaluations += sub.evaluations
         run.count(1, "C02.h")
         for f in sub.findings:
-            if f.rule in ("C09.a", "C09.b", "C09.c", "C09.d", "C09.e"):
+            if f.rule[:5] in ("C09.a", "C09.b", "C09.c", "C09.d", "C09.e"):
                 run.finding("C02.h", f.key, f.message, f.loc)
         for e in sub.errors:
             raise AnalysisError("model-mismatch", e)
